@@ -53,6 +53,17 @@ Theorem C19_lc_schemes :
 Proof. exact lc_schemes_ok. Qed.
 Print Assumptions C19_lc_schemes.
 
+(* every row of the REGENERATED parameter table of randlc2s.c meets the full-period conditions of a mixed congruential generator
+   modulo 2^m (c odd, a = 5 mod 8); with c odd the state 0 is left at once (c = 0 and a seed divisible by 2^m give zeros for ever) *)
+Theorem C19_lc_schemes_full_period_conditions :
+  forallb (fun s => let '(m, a, c) := s in Z.odd c && (a mod 8 =? 5) && (0 <? a) && (a <? 2 ^ m) && (0 <=? c) && (c <? 2 ^ m) && (2 <=? m)) lc_schemes = true.
+Proof. exact lc_schemes_full_period_conditions. Qed.
+Print Assumptions C19_lc_schemes_full_period_conditions.
+
+Theorem C19_lc_step_leaves_zero : forall m a c, 1 <= m -> Z.odd c = true -> (a * 0 + c) mod 2 ^ m <> 0.
+Proof. exact lc_step_leaves_zero. Qed.
+Print Assumptions C19_lc_step_leaves_zero.
+
 (* the functions built on ANY generator that honours its bit count *)
 Section AnyGenerator.
 Variable St : Type.
